@@ -71,6 +71,15 @@ CLAIMED = {
             "library truncation functions.",
             "dominance/guard checks and counter-monotonicity on go/ssa, exhaustive path enumeration of one loop iteration, predicate-vs-table agreement, value provenance to truncation calls",
             "DESIGN.md §4 C05"),
+    "C10": ("Structural necessary conditions of 'a rejected resume leaves the session untouched': every path of Resume/tryToResume "
+            "(all enumerated) that ends in an engine-error rejection executes no instruction or callee that writes a persisted "
+            "session/run/step/contact/sprint field through a non-fresh object (root-sensitive interprocedural write summaries; only "
+            "the transient session.parentRun is allowed); Accepts(resume) dominates every state change; every other exit of "
+            "tryToResume fails the session with a nil Go error; Router()/Wait() receivers are nil-tested; the Accepts decision "
+            "table is evaluated exhaustively over resume type x timeout (total, every type accepted somewhere, no timeout resume "
+            "without a timeout). Does not compare session JSON before/after as an observed fact nor cover faults inside ReadSession.",
+            "path enumeration with interprocedural root-sensitive write-effect summaries (go/ssa + CHA), guard dominance, finite-domain abstract interpretation of Accepts",
+            "DESIGN.md §4 C10"),
 }
 
 NOT_APPLICABLE = {}
